@@ -134,3 +134,11 @@ Definition inputs_modelled (decl : list site) (gen : list gsite) : bool :=
                                 || existsb (stage_eqb s) (modelled_usage_stages (fst (fst (fst g))))
                     | None => false
                     end) gen.
+
+(* sites used by the non-vacuity example of Properties/C05.v *)
+Definition ex_cluster_load : gsite :=
+  ("hourly", "HourlyModel._add_categorical_features.correct_missing_temporal_clusters", "load", 5).
+Definition ex_normalize_one_more : gsite := ("hourly", "HourlyModel._normalize_features", "load", 3).   (* y-scaler refit *)
+Definition ex_predict_read : gsite := ("hourly", "HourlyModel._predict", "load", 1).
+Definition ex_set_data_dropna : gsite := ("hourly", "_HourlyData._set_data", "dropna", 1).               (* seeded C05-2 *)
+Definition ex_set_data_mask : gsite := ("hourly", "_HourlyData._set_data", "mask", 1).                   (* seeded C05-4 *)
